@@ -182,3 +182,69 @@ def rule_T1(ctx, rep, config="c-lib"):
             else:
                 rep.violation("T1", "yaep_parse/*root@%d" % n, "*root is assigned something else than make_parse's result", where=s.where())
     rep.floor("T1", "tree-content assignments", n, 7)
+
+
+def rule_translation_reading(ctx, rep, config="c-lib"):
+    rep.rule("T1-transl", "reading of a rule's translation list in yaep_read_grammar: for the i-th element el >= 0 of the list, order[el] = i is stored (index = the element, "
+                          "value = its position) and trans_len is incremented once per accepted element, including the NIL element; the implicit start rule translates "
+                          "its first symbol (order[0] = 0, trans_len = 1) and the implicit error rule nothing (trans_len = 0)")
+    p = ctx.prog(config)
+    f = p.fn("yaep_read_grammar")
+    rep.cover(p, [f.name])
+    from .c10 import roles_of
+    expr.NAMED[0] = True
+    expr.ROLES[0] = roles_of(f)
+    try:
+        stores = []
+        for s in f.all_insts():
+            if s.op != "store":
+                continue
+            pa = resolve_addr(f, s.ops[1])
+            if pa.root[0] != "val" or pa.fields():
+                continue
+            lp = loaded_from(f, pa.root[1])
+            if lp is None or lp.last_field() != "rule.order":
+                continue
+            ixs = [st for st in pa.steps if st[0] in ("ptr", "idx")]
+            if len(ixs) > 1:
+                continue
+            stores.append((s, repr(expr.lin(f, ixs[0][1], 0, 3)) if ixs else "0", repr(expr.lin(f, s.ops[0], 0, 3))))
+    finally:
+        expr.NAMED[0] = False
+        expr.ROLES[0] = None
+    listed = [(s, ix, v) for (s, ix, v) in stores if "out3(read_rule)" in ix]
+    start = [(s, ix, v) for (s, ix, v) in stores if ix == "0"]
+    if len(listed) == 1 and listed[0][1].startswith("L[(L[&out3(read_rule)])[") and listed[0][2] in listed[0][1] and "[" + listed[0][2] + "]" in listed[0][1]:
+        rep.ok("T1-transl", "yaep_read_grammar/order[el]=i", sample={"store": listed[0][0].where(), "index": listed[0][1], "value": listed[0][2]})
+    else:
+        rep.violation("T1-transl", "yaep_read_grammar/order[el]=i", "the translation order of a rule is not recorded as order[element] = position: %s" % [(ix, v) for (_, ix, v) in listed],
+                      where=listed[0][0].where() if listed else f.where())
+    if len(start) == 1 and start[0][2] == "0":
+        rep.ok("T1-transl", "yaep_read_grammar/start-rule-order")
+    else:
+        rep.violation("T1-transl", "yaep_read_grammar/start-rule-order", "the implicit rule $S : <start> $eof does not translate its first symbol", where=f.where())
+    # trans_len: increments (+1 of its own load) and constant stores
+    incs, consts = [], []
+    for s in f.all_insts():
+        if s.op == "store" and resolve_addr(f, s.ops[1]).last_field() == "rule.trans_len":
+            c = const_int(s.ops[0])
+            if c is not None:
+                consts.append((s, c))
+            else:
+                l = expr.lin(f, s.ops[0], 0, 1)
+                if l.c == 1 and len(l.t) == 1 and list(l.t.values())[0] == 1 and list(l.t.keys())[0].endswith("rule.trans_len]"):
+                    incs.append(s)
+                else:
+                    consts.append((s, None))
+    if len(incs) == 2 and sorted(c for (_, c) in consts if c is not None) == [0, 1] and all(c is not None for (_, c) in consts):
+        rep.ok("T1-transl", "yaep_read_grammar/trans_len", sample={"increments": [s.where() for s in incs], "constants": [c for (_, c) in consts]})
+    else:
+        rep.violation("T1-transl", "yaep_read_grammar/trans_len", "trans_len is not counted once per accepted translation element (increments: %d, constant stores: %s)" % (
+            len(incs), [c for (_, c) in consts]), where=f.where())
+    # rule_new_start: a fresh rule starts with trans_len 0 and anode cost 0 without abstract node
+    g = p.fn("rule_new_start")
+    z = [s for s in g.all_insts() if s.op == "store" and resolve_addr(g, s.ops[1]).last_field() == "rule.trans_len" and const_int(s.ops[0]) == 0]
+    if z:
+        rep.ok("T1-transl", "rule_new_start/trans_len=0")
+    else:
+        rep.violation("T1-transl", "rule_new_start/trans_len=0", "a new rule does not start with an empty translation", where=g.where())
